@@ -229,6 +229,17 @@ def verify_certificate(
     if now > certificate.not_valid_after_utc:
         raise AlertCertificateExpired("Certificate is no longer valid")
 
+    # The extensions are only parsed when they are first accessed, a certificate
+    # whose extensions cannot be parsed is as good as any other bad certificate.
+    try:
+        certificate.extensions
+    except (
+        ValueError,
+        x509.DuplicateExtension,
+        x509.UnsupportedGeneralNameType,
+    ) as exc:
+        raise AlertBadCertificate(str(exc)) from exc
+
     # verify subject
     if server_name is not None:
         try:
